@@ -71,7 +71,7 @@ vars == <<main, store, appDBI, shadowDBI, lastTxn, clock, bucket, ownOld, ownDel
 RemoteNow == IF Native THEN 50 ELSE clock + 1
 RemoteVers == {Live(2, 2), Live(RemoteNow, 2), Tomb(RemoteNow)}
 
-NoCur == [w |-> 0, lc |-> FALSE, empty |-> FALSE, has |-> FALSE, img |-> <<>>, own |-> FALSE, oth |-> FALSE, txn |-> 0]
+NoCur == [w |-> 0, lc |-> FALSE, empty |-> FALSE, has |-> FALSE, img |-> <<>>, own |-> FALSE, oth |-> FALSE, nodbi |-> FALSE, txn |-> 0]
 EmptyStore == [k \in Keys |-> Absent]
 EmptyMain  == [k \in Keys |-> -1]
 Mirror(s) == IF MirrorDropsEmpty
@@ -278,7 +278,7 @@ ToLoopTop ==
 NextUpdate ==   \* r.Next(): receiver snapshots first, then other updates
     /\ pc \in {"loop.top", "load.done"}
     /\ IF avail # <<>>
-       THEN /\ cur' = [NoCur EXCEPT !.has = TRUE, !.img = Head(avail).img, !.own = Head(avail).own, !.oth = Head(avail).oth]
+       THEN /\ cur' = [NoCur EXCEPT !.has = TRUE, !.img = Head(avail).img, !.own = Head(avail).own, !.oth = Head(avail).oth, !.nodbi = Head(avail).nodbi]
             /\ avail' = Tail(avail)
        ELSE /\ cur' = NoCur /\ avail' = avail
     /\ pc' = "loop.next"
@@ -291,7 +291,7 @@ LoadTxn ==   \* sync.go:362-518
     /\ LET w   == lastTxn + 1
            lc  == lastSynced < w - 1
            now == clock + 1
-           t   == LSTxn(lc /\ ~Native, now, TRUE, cur.img, TRUE) IN
+           t   == LSTxn(lc /\ ~Native, now, ~cur.nodbi, cur.img, TRUE) IN   \* an update without any DBI creates and merges nothing; capture and mirror still run
        IF t.fails
        THEN /\ pc' = "dead" /\ NoLMDBChange /\ UNCHANGED <<clock, cur, uncaptured>>
             /\ act' = [name |-> "run", to |-> "dead"]
@@ -389,11 +389,12 @@ AppCommit(k, v) ==   \* v = -1: delete
     /\ UNCHANGED <<bucket, ownOld, ownDelivered, otherOld, otherDelivered, avail, pc, lastSynced, hasDataAtStart, hasSnapshots, waitingOwn, waitingOther, cur, ret,
                    sendCover, sentSinceStart, infoAtCheck, nRemote, iter, nCrash>>
 
-Inject(img) ==   \* a remote snapshot arrives through hooks.OtherUpdateSource
+Inject(img, nodbi) ==   \* a remote snapshot arrives through hooks.OtherUpdateSource; nodbi: it holds no DBI at all
     /\ Parked /\ nRemote < MaxRemote /\ Len(avail) < 2
-    /\ avail' = Append(avail, [own |-> FALSE, oth |-> FALSE, img |-> img])
+    /\ (nodbi => img = <<>>)
+    /\ avail' = Append(avail, [own |-> FALSE, oth |-> FALSE, img |-> img, nodbi |-> nodbi])
     /\ nRemote' = nRemote + 1
-    /\ act' = [name |-> "inject", img |-> img]
+    /\ act' = [name |-> "inject", img |-> img, nodbi |-> nodbi]
     /\ clock' = IF Native THEN clock ELSE clock + 1
     /\ remoteSeen' = remoteSeen \cup {<<k, img[k]>> : k \in DOMAIN img}
     /\ NoLMDBChange /\ NoHist
@@ -403,7 +404,7 @@ NewestOwnImg == IF Len(bucket) > 0 THEN bucket[Len(bucket)].img ELSE Image(ownOl
 DeliverOwn ==   \* the downloader finishes loading the instance's newest own snapshot (start-up only)
     /\ Parked /\ waitingOwn /\ ~ownDelivered
     /\ ~\E i \in 1..Len(avail) : avail[i].oth      \* one downloaded snapshot at a time (Next() picks among several in map order)
-    /\ avail' = <<[own |-> TRUE, oth |-> FALSE, img |-> NewestOwnImg]>> \o avail     \* receiver snapshots have priority
+    /\ avail' = <<[own |-> TRUE, oth |-> FALSE, img |-> NewestOwnImg, nodbi |-> FALSE]>> \o avail     \* receiver snapshots have priority
     /\ ownDelivered' = TRUE
     /\ act' = [name |-> "deliverown"]
     /\ NoLMDBChange /\ NoHist
@@ -412,7 +413,7 @@ DeliverOwn ==   \* the downloader finishes loading the instance's newest own sna
 DeliverOther ==   \* the downloader finishes loading the other instance's snapshot (start-up listing only: poll interval = never)
     /\ Parked /\ waitingOther /\ ~otherDelivered
     /\ ~\E i \in 1..Len(avail) : avail[i].own
-    /\ avail' = <<[own |-> FALSE, oth |-> TRUE, img |-> Image(otherOld.img)]>> \o avail
+    /\ avail' = <<[own |-> FALSE, oth |-> TRUE, img |-> Image(otherOld.img), nodbi |-> FALSE]>> \o avail
     /\ otherDelivered' = TRUE
     /\ act' = [name |-> "deliverother"]
     /\ NoLMDBChange /\ NoHist
@@ -444,7 +445,7 @@ Crash(wipe) ==   \* stop at the yield point, restart the process (LMDB kept or e
 
 RemoteImgs == [Keys -> RemoteVers \cup {Absent}]
 Env == \/ \E k \in Keys, v \in AppVals \cup {-1} : AppCommit(k, v) /\ NoRS /\ NoMC /\ NoT /\ NoF
-       \/ \E img \in RemoteImgs : Inject(Image(img)) /\ NoMC /\ NoT /\ NoF
+       \/ \E img \in RemoteImgs, nd \in BOOLEAN : Inject(Image(img), nd) /\ NoMC /\ NoT /\ NoF
        \/ (DeliverOwn \/ DeliverOther) /\ NoRS /\ NoMC /\ NoT /\ NoF
        \/ IntervalPasses /\ NoRS /\ NoMC /\ NoT
        \/ \E w \in BOOLEAN : Crash(w) /\ NoRS
